@@ -266,7 +266,8 @@ func (check typecheck) comparison(n *node) error {
 
 	switch n.action {
 	case aEqual, aNotEqual:
-		ok = t0.comparable() && t1.comparable() || t0.isNil() && t1.hasNil() || t1.isNil() && t0.hasNil()
+		// A nil operand is compared to an operand of a type which has nil, not to nil itself.
+		ok = !(t0.isNil() && t1.isNil()) && (t0.comparable() && t1.comparable() || t0.isNil() && t1.hasNil() || t1.isNil() && t0.hasNil())
 	case aLower, aLowerEqual, aGreater, aGreaterEqual:
 		ok = t0.ordered() && t1.ordered()
 	}
@@ -1310,6 +1311,13 @@ func (check typecheck) convertUntyped(n *node, typ *itype) error {
 	ntyp, ttyp := n.typ.TypeOf(), typ.TypeOf()
 	if typ.untyped {
 		// Both n and target are untyped.
+		if n.typ.isNil() || typ.isNil() {
+			// The type of nil has no reflect type, and nil is not a constant value.
+			if n.typ.isNil() != typ.isNil() {
+				return convErr
+			}
+			return nil
+		}
 		nkind, tkind := ntyp.Kind(), ttyp.Kind()
 		if isNumber(ntyp) && isNumber(ttyp) {
 			if nkind <= tkind {
